@@ -73,11 +73,11 @@ def observe(cfg):
         os.makedirs(d)
         names.append(f"p{k}")
         md = ""
-        if k == 0:
+        if not n["parents"]:
             md += f'ARCH="{cfg["arch"]}"\n'
         else:
             with open(os.path.join(d, "parent"), "w") as f:
-                f.write(f"../p{k-1}\n")
+                f.write("".join(f"../p{j - 1}\n" for j in n["parents"]))  # parents are 1-based node indices
         if n["akw"]:
             md += f'ACCEPT_KEYWORDS="{" ".join(text(t) for t in n["akw"])}"\n'
         if n["alic"]:
@@ -129,7 +129,7 @@ def from_tla(c):
 
     return dict(
         arch=c["arch"],
-        nodes=[dict(akw=n["akw"], alic=n["alic"], mask=np(n["mask"]), unmask=np(n["unmask"]), pakw=n["pakw"]) for n in c["nodes"]],
+        nodes=[dict(parents=list(n["parents"]), akw=n["akw"], alic=n["alic"], mask=np(n["mask"]), unmask=np(n["unmask"]), pakw=n["pakw"]) for n in c["nodes"]],
         conf=c["conf"],
         user=dict(mask=sorted(c["user"]["mask"]), unmask=sorted(c["user"]["unmask"]), pakw=c["user"]["pakw"], plic=c["user"]["plic"]),
         repo=dict(masks=sorted(c["repo"]["masks"]),
@@ -178,7 +178,7 @@ def rand_lic_tok(r_):
     if z < 0.18:
         return T(r_.random() < 0.5, "star", "")
     if z < 0.50:
-        return T(r_.random() < 0.45, "group", r_.choice(["g", "h", "nowhere"]))
+        return T(r_.random() < 0.45, "group", r_.choice(["g", "g", "h", "k", "nowhere"]))
     return T(r_.random() < 0.4, "flag", r_.choice(LICS))
 
 
@@ -189,7 +189,7 @@ def rand_node_alic(r_):
         return []
     if z < 0.65:
         head = r_.choice([T(False, "star", ""), T(False, "group", "g"), T(False, "group", "h")])
-        tail = [r_.choice([T(True, "flag", r_.choice(LICS)), T(True, "group", r_.choice(["g", "h"]))]) for _ in range(r_.randint(1, 2))]
+        tail = [r_.choice([T(True, "flag", r_.choice(LICS)), T(True, "group", r_.choice(["g", "h", "k"]))]) for _ in range(r_.randint(1, 2))]
         return [head] + tail
     return [rand_lic_tok(r_) for _ in range(r_.randint(1, 3))]
 
@@ -222,19 +222,36 @@ def rand_kw_entry(r_, scopes):
     return dict(sc=r_.choice(scopes), toks=toks)
 
 
-def rand_cfg(r_):
+def rand_defs(r_):
+    """license_groups: up to three levels of nesting (g -> h -> k), unknown references, lines in any order."""
+    later = {"g": ["h", "k", "nowhere"], "h": ["k", "nowhere"], "k": ["nowhere"]}
     defs = []
-    if r_.random() < 0.85:
-        mem = [M(False, x) for x in LICS if r_.random() < 0.4] + [M(True, x) for x in ("h", "nowhere") if r_.random() < 0.4]
-        defs.append(dict(name="g", members=mem or [M(False, "l1")]))
-    if r_.random() < 0.7:
-        defs.append(dict(name="h", members=[M(False, x) for x in LICS if r_.random() < 0.4] or [M(False, "l2")]))
+    for g in ("g", "h", "k"):
+        if r_.random() < 0.2:
+            continue
+        mem = [M(False, x) for x in LICS if r_.random() < 0.3] + [M(True, x) for x in later[g] if r_.random() < 0.45]
+        defs.append(dict(name=g, members=mem or [M(False, r_.choice(LICS))]))
     if not defs:
         defs = [dict(name="h", members=[M(False, "l2")])]
+    r_.shuffle(defs)
+    return defs
+
+
+def rand_parents(r_, k):
+    """Parents (1-based indices of earlier nodes) of node k: chains, forks and diamonds."""
+    if k == 1:
+        return []
+    n = 1 if r_.random() < 0.55 else 2
+    return r_.sample(range(1, k), min(n, k - 1))
+
+
+def rand_cfg(r_):
+    defs = rand_defs(r_)
     arch = r_.choice(["amd64", "x86"])
     pkgs = [dict(id=p, kws=rand_kws(r_, arch), lic=rand_tree(r_)) for p in sorted(PKGS)]
-    nodes = [dict(akw=rand_kw_stream(r_, 2), alic=rand_node_alic(r_), mask=rand_np(r_, 0.12),
-                  unmask=rand_np(r_, 0.08), pakw=[rand_kw_entry(r_, ATOMS) for _ in range(r_.randint(0, 2))]) for _ in range(r_.randint(1, 3))]
+    nodes = [dict(parents=rand_parents(r_, k), akw=rand_kw_stream(r_, 2), alic=rand_node_alic(r_), mask=rand_np(r_, 0.12),
+                  unmask=rand_np(r_, 0.08), pakw=[rand_kw_entry(r_, ATOMS) for _ in range(r_.randint(0, 2))])
+             for k in range(1, r_.randint(1, 4) + 1)]
     scs = sorted(SCOPES)
     return dict(
         arch=arch, nodes=nodes,
@@ -261,7 +278,7 @@ def run(ck):
     logging.getLogger("pkgcore").setLevel(logging.CRITICAL)
     for v in ("ACCEPT_KEYWORDS", "ACCEPT_LICENSE", "USE", "FEATURES"):
         os.environ.pop(v, None)
-    ck.rule = ("configurations = repository masks + 1-3 profile nodes (ACCEPT_KEYWORDS/ACCEPT_LICENSE, package.mask/unmask, "
+    ck.rule = ("configurations = repository masks + a profile inheritance graph of 1-4 nodes, forks and diamonds included (ACCEPT_KEYWORDS/ACCEPT_LICENSE, package.mask/unmask, "
                "package.accept_keywords) + make.conf + the user's package.mask/unmask/accept_keywords/license + licence groups, "
                "chosen by TLC simulation of Visibility_MC and by a seeded generator (which also draws keywords and licence trees "
                "of the 4 packages); every package of every configuration is one evaluation; non-trivial = distinct "
